@@ -34,8 +34,8 @@ const flagOverlong = true
 // limits for a case to take part in the Coq evaluation (beyond them coqc runs out of stack
 // while reading the term; the quick tier stays far below)
 const (
-	maxCoqTerm = 400 << 10
-	maxCoqOps  = 12000
+	maxCoqTerm = 500 << 10
+	maxCoqOps  = 20000
 )
 
 type opSpec struct {
